@@ -273,7 +273,7 @@ def build_unit(u, tmp, log):
 
 
 def cbmc_cmd(u, gb):
-    cmd = ['cbmc'] + [c for c in CBMC_CHECKS if c not in u.get('drop_checks', [])] + ['--json-ui']
+    cmd = ['cbmc'] + [c for c in CBMC_CHECKS if c not in u.get('drop_checks', [])] + ['--json-ui', '--verbosity', '8']
     if not u.get('malloc_may_fail'):
         cmd.append('--no-malloc-may-fail')
     if u.get('unwind'):
@@ -364,9 +364,12 @@ def run_unit(u, tier, keep=False):
             return rec
         results, msgs, perr = parse_cbmc(out)
         for m in msgs:
-            mm = re.search(r'Runtime (?:decision procedure|Solver|Postprocess Equation|Convert SSA|Symex)\s*:?\s*([0-9.]+)s', m) if 'decision' in m or 'Solver' in m else None
+            mm = re.search(r'Runtime decision procedure:\s*([0-9.eE+-]+)s', m)
             if mm:
                 rec['t_solver'] += float(mm.group(1))
+            ms = re.search(r'Runtime Symex:\s*([0-9.eE+-]+)s', m)
+            if ms:
+                rec['t_symex'] = rec.get('t_symex', 0.0) + float(ms.group(1))
         if results is not None and (rc == 6 or any('out of memory' in m.lower() for m in msgs)):
             # cbmc reports undecided properties as failed when the solver dies: never a violation
             rec['reason'] = 'cbmc ran out of memory (rc=%s)' % rc
@@ -773,7 +776,7 @@ def write_evidence(pid, tier, sel, recs, violations, known, inconclusive, wall):
             backend=r['backend'], status=r['status'], reason=r['reason'],
             obligations=r['n_props'], discharged=r['n_success'], canary=r['canary'],
             goto_cc_s=round(r['t_gotocc'], 2), instrument_s=round(r['t_instrument'], 2),
-            cbmc_s=round(r['t_cbmc'], 2), solver_s=round(r['t_solver'], 3)))
+            cbmc_s=round(r['t_cbmc'], 2), symex_s=round(r.get('t_symex', 0.0), 3), solver_s=round(r['t_solver'], 3)))
     has_proved = len(proved) > 0
     level = 'proof' if has_proved else 'model_checking'
     cov = dict(
